@@ -167,6 +167,20 @@ RemoveAllEquiv(v) ==
     /\ equiv' = [u \in Vars |-> IF u = v THEN {} ELSE equiv[u] \ {v}]
     /\ UNCHANGED <<lists, parent, held>>
 
+\* ------------------------------------------------------------------ Model::clean()
+\* Removes, bottom-up, the components of m's hierarchy that are empty - no name, no variable, no reset, no remaining child (the
+\* universe gives no entity an id, math or an import source) - and the units of m without a name (universe units have no children).
+Nameless(x) == x \in DOMAIN NameOf /\ NameOf[x] = ""
+EmptyGiven(S) == {c \in Comps : Nameless(c) /\ lists["var"][c] = <<>> /\ lists["reset"][c] = <<>> /\ SeqRange(lists["comp"][c]) \subseteq S}
+RECURSIVE EmptyUpTo(_, _)
+EmptyUpTo(S, n) == IF n = 0 THEN S ELSE EmptyUpTo(EmptyGiven(S), n - 1)
+Clean(m) ==
+    LET gone == (EmptyUpTo({}, Cardinality(Comps)) \cap Descendants(m)) \cup {u \in SeqRange(lists["units"][m]) : Nameless(u)}
+        inM(p) == p = m \/ p \in Descendants(m)
+    IN /\ m \in Models
+       /\ Commit([k \in Kinds |-> [p \in Containers |-> IF inM(p) THEN SelectSeq(lists[k][p], LAMBDA x : x \notin gone) ELSE lists[k][p]]],
+                 [e \in Entities |-> IF e \in gone THEN None ELSE parent[e]], equiv, held)
+
 \* ------------------------------------------------------------------ drop a handle
 Release(x) ==
     /\ x \in held
@@ -188,6 +202,7 @@ Apply(c) ==
       [] c.e = "removeEquiv" -> RemoveEquiv(c.x, c.y)
       [] c.e = "removeAllEquiv" -> RemoveAllEquiv(c.x) /\ ret' = Yes
       [] c.e = "release" -> Release(c.x) /\ ret' = Yes
+      [] c.e = "clean" -> Clean(c.p) /\ ret' = Yes
 
 \* calls outside the claim (never generated): adding / replacing with an entity its container already lists
 Excluded(c) ==
